@@ -19,7 +19,7 @@
  *
  * behaviour file:
  *   reset
- *   load <flags> <filterpreset 0|1> synthetic <description...> | xml <path>
+ *   load <flags> <filterpreset 0|1> synthetic <description...> | xml <path> | native
  *   prep <op> ...            modifications of the original before sharing (see do_prep)
  *   snapshot                 full observation of the original
  *   get_length <flags>
@@ -294,7 +294,9 @@ static void do_load(char *p) {
   unsigned long fl = (unsigned long)hwv_tokl(&p); int preset = (int)hwv_tokl(&p); char *kind = hwv_tok(&p); int r1 = 0, r2 = 0, r3 = 0, ret, err;
   while (*p == ' ') p++;
   hwloc_topology_init(&orig);
-  if (kind && !strcmp(kind, "xml")) r1 = hwloc_topology_set_xml(orig, p); else r1 = hwloc_topology_set_synthetic(orig, p);
+  if (kind && !strcmp(kind, "xml")) r1 = hwloc_topology_set_xml(orig, p);
+  else if (kind && !strcmp(kind, "native")) r1 = 0;                 /* this machine */
+  else r1 = hwloc_topology_set_synthetic(orig, p);
   r2 = hwloc_topology_set_flags(orig, fl);
   if (preset == 1) r3 = hwloc_topology_set_all_types_filter(orig, HWLOC_TYPE_FILTER_KEEP_ALL);
   errno = 0; ret = (r1 || r2 || r3) ? -1 : hwloc_topology_load(orig); err = errno;
@@ -543,16 +545,18 @@ static void do_call(char *p) {
   }
   else if (!strcmp(op, "cpukinds_register")) { hwloc_bitmap_t s = parse_set(s1 ? s1 : "0"); ret = hwloc_cpukinds_register(t, s, (int)x, NULL, 0); err = errno; hwloc_bitmap_free(s); }
   else if (!strcmp(op, "diff_apply")) {
-    /* a one-entry diff built between the original and a copy of it with one more root info */
-    hwloc_topology_t d2 = NULL; hwloc_topology_diff_t diff = NULL; int b = -1;
-    if (!hwloc_topology_dup(&d2, orig)) {
-      hwloc_obj_add_info(hwloc_get_root_obj(d2), "hwvdiff", "1");
-      b = hwloc_topology_diff_build(orig, d2, 0, &diff);
+    /* a one-entry diff between two private copies of this topology: the value of the first root info is replaced in the second */
+    hwloc_topology_t d1 = NULL, d2 = NULL; hwloc_topology_diff_t diff = NULL; int b = -1;
+    if (!hwloc_topology_dup(&d1, t) && !hwloc_topology_dup(&d2, t)) {
+      hwloc_obj_t r2 = hwloc_get_root_obj(d2);
+      if (r2->infos.count) hwloc_modify_infos(&r2->infos, HWLOC_MODIFY_INFOS_OP_REPLACE, r2->infos.array[0].name, "hwvchanged");
+      b = hwloc_topology_diff_build(d1, d2, 0, &diff);
       out(",\"build\":%d,\"hasdiff\":%d", b, diff ? 1 : 0);
       errno = 0; ret = hwloc_topology_diff_apply(t, diff, (unsigned long)x); err = errno;
       if (diff) hwloc_topology_diff_destroy(diff);
-      hwloc_topology_destroy(d2);
     }
+    if (d1) hwloc_topology_destroy(d1);
+    if (d2) hwloc_topology_destroy(d2);
   }
   else if (!strcmp(op, "set_subtype")) { ret = hwloc_obj_set_subtype(t, hwloc_get_root_obj(t), s1); err = errno; }
   else if (!strcmp(op, "set_flags")) { ret = hwloc_topology_set_flags(t, (unsigned long)x); err = errno; }
